@@ -287,7 +287,7 @@ class Env:
                         return (sub.ev(dc.key), sub.ev(dc.value))
         if isinstance(it, ast.Call) and norm(it.func) in ('sorted', 'list', 'reversed', 'set', 'tuple') and it.args:
             return self.iter_elem(it.args[0])
-        if isinstance(it, ast.Call) and norm(it.func).split('.')[-1] == 'chunks' and len(it.args) == 2:
+        if isinstance(it, ast.Call) and (self.ctx.res.canon(it.func, self.f) or norm(it.func)).split('.')[-1] == 'chunks' and len(it.args) == 2:
             src = self.ev(it.args[0])
             n = self.const_int(it.args[1])
             if isinstance(src, Rep) and src.elem is not None and n == len(src.elem):
